@@ -590,7 +590,6 @@ func runC13(r *Run, replay *Case) {
 	}
 }
 
-
 // a VARIABLE whose name is also the name of a registered template function (built-in or custom) is the variable wherever a path is allowed:
 // only `name(` is a call
 func c13NameClash(r *Run) {
